@@ -30,7 +30,7 @@ CHECKS = {
     "C04": ("exploration",
             "Hypothesis-generated list programs and edit/call histories; reference solution set enumerated over sizes 0..4 x element values; access-path agreement checks",
             "Fixed-size, random-size and non-random scalar lists with size bounds, foreach by item/index/both/nested, guarded index arithmetic, sum, unique, unique_vec, membership and constant subscripts; histories interleave calls with append/extend/clear/assign/setitem. After every successful call (size, elements) must lie in the enumerated set, len()/size/indexing/iteration must agree, fixed lists keep their length, and edits must act on exactly the exposed list.",
-            "Random-size lists whose elements are constrained are a recorded finding (the library solves over the grown list); histories stop after a failed call on a random-size list.",
+            "Random-size lists whose elements are constrained are a recorded finding (the library solves over the grown list); after a failed call only the list's length is judged. Lists beyond the enumerable bound (3-10 elements of 4-32 bits) are judged by a solution-first family: every returned state against the reference, pinned perturbations of a hidden solution both ways.",
             "5/C04"),
     "C05": ("exploration",
             "Hypothesis-generated hard+soft programs; exact greedy-by-priority reference and result-only maximality over the enumerated solution space",
@@ -50,7 +50,7 @@ CHECKS = {
     "C06": ("exploration",
             "generated call histories over instance populations; enumerated reference with dynamic references expanded per instance; pinned probes for 'no trace' and binding",
             "A generated class with two dynamic blocks that read a per-instance constant (one may hold a foreach over the instance's editable non-random list); histories edit that list, create instances before/after the target and call randomize_with with plain constraints and Boolean combinations (| & ~) of dynamic references, also through list elements of a holder; every result must lie in class AND this call's inline set evaluated on this very instance; probes check that earlier inline sets leave no trace and that referenced blocks bind to the right object.",
-            "Dynamic blocks are referenced from inline blocks only.",
+            "Dynamic blocks are referenced from inline blocks (directly, through a sub-object, a list element, the index of an inline foreach) and from one class constraint of a holder; instances of a derived class take part.",
             "5/C06"),
     "C07": ("exploration",
             "generated class hierarchies, instance populations and constraint_mode toggle histories against a per-instance enabled-block model; pinned probe pairs per block",
@@ -60,7 +60,7 @@ CHECKS = {
     "C08": ("exploration",
             "Hypothesis-generated object trees flattened to path-keyed reference programs; enumerated truth; pinned probes per flattened statement",
             "Trees with rand_attr/attr sub-objects, structurally identical siblings with distinguishing parent constraints, random and non-random object lists, cross-level constraints through paths and indices, violated own blocks on non-random sub-objects; results and two-directional pins are judged on the flattened program in which a sub-object's blocks count iff its whole ancestor chain is random. Sub-domains: lists holding subclass instances; lists of objects that hold ragged lists of objects reached through two foreach indices, a subscript by a non-random field that changes between calls, conditions on elements of a non-random object list.",
-            "Bit-select f[i] through a list index is not generated (the DSL reads it as an array subscript); subclass elements that shift inherited field indices are a recorded finding.",
+            "Bit-select f[i] through a list index is not generated (the DSL reads it as an array subscript).",
             "5/C08"),
     "C17": ("exploration",
             "generated object trees with logging pre/post_randomize callbacks; event multisets, order and observed values against the tree model",
@@ -74,12 +74,12 @@ CHECKS = {
             "5/C09"),
     "C16": ("fault_enumeration",
             "generated histories with one injected fault from an enumerated set of fault positions; structural idle-state oracle + twin-session differential",
-            "Fault kinds: exception in a constraint body during construction (top level, if_then, implies, foreach), in a randomize_with body (before/after/nested), in pre/post_randomize of the top object or a sub-object, SolveFailure with foreach/dist rewrites active, SolveFailure with solve_fail_debug=1. After the faulted call the construction stacks must be empty and no solver handle or override constraint may remain; a twin session without the failed call must behave identically afterwards.",
+            "Fault kinds: exception in a constraint body during construction (top level, if_then, implies, foreach), in a randomize_with body (before/after/nested), in pre/post_randomize of the top object or a sub-object, SolveFailure with foreach/dist rewrites active (also in the rand set of a random-size list), SolveFailure with solve_fail_debug=1, a call the library aborts for contradicting solve_order directives after it rewrote the model. After the faulted call a random-size list must expose the elements it held before, the construction stacks must be empty and no solver handle or override constraint may remain; a twin session without the failed call must behave identically afterwards.",
             "Structural introspection uses private attribute names and degrades to 'not checked'; values left by the aborted call are equalised, not compared.",
             "5/C16"),
     "C10": ("exploration",
             "Hypothesis-generated bin specifications, exhaustive value sweep per specification, differential against an independent bin-partition model",
-            "Generated coverpoint specifications (bin / bin_array with every count form, overlapping and unordered ranges, auto-bins, enum auto-bins, ignore/illegal bins, iff by field or callable) sampled with every value of the coverpoint's type; after every sample the per-bin increment vector (regular, ignore, illegal) must equal the reference membership vector.",
+            "Generated coverpoint specifications (bin / bin_array with every count form, overlapping and unordered ranges, auto-bins, enum auto-bins, ignore/illegal bins, iff by field or callable) sampled with every value of the coverpoint's type; after every sample the per-bin increment vector (regular, ignore, illegal) must equal the reference membership vector. Further families: one bins dictionary shared by two coverpoints with different exclusions, covergroups that sample objects, samples during which the user's callable raises, and types of 12-64 bits judged by an interval-list reference at every bin endpoint and its neighbours.",
             "Trusts the reference partition rule in pvs/model/cov.py (written from the property text); hit counts are read through the model getters the property names.",
             "5/C10"),
     "C11": ("exploration",
@@ -89,7 +89,7 @@ CHECKS = {
             "5/C11"),
     "C12": ("exploration",
             "generated histories (create instance / sample) checked after every step against a dict-based model of instance and type coverage",
-            "A parameterised covergroup class yields several shapes; histories interleave instance creation and samples; after every operation each instance's own hits, the type hits (bin-wise sum over same-shape instances), get_inst_coverage/get_coverage (weighted share of bins at at_least), bounds and monotonicity are compared with the model.",
+            "A parameterised covergroup class yields several shapes; histories interleave instance creation and samples; coverpoints may carry a sampling condition of their own; after every operation each instance's own hits, the type hits (bin-wise sum over same-shape instances), get_inst_coverage/get_coverage (weighted share of bins at at_least), bounds and monotonicity are compared with the model.",
             "Option inheritance (coverpoint inherits the covergroup's weight/at_least) follows the library's documented resolution.",
             "5/C12"),
     "C13": ("exploration",
